@@ -600,6 +600,8 @@ func runC10(w *World, r *Report) {
 		}
 	}
 
+	shareRule(w, r, "C10.designated-handlers-reach-nested-runs", "every wrapper between a graph node and its runnable passes the call options on in both of its forms (value and stream): a handler designated by path into a nested graph travels in them", 40, "C16", "C16.opts-forwarded")
+
 	r.Rule("C10.init-detaches", "InitCallbacks installs a manager (or nil) into the context on every path: it never returns the incoming context unchanged", 1)
 	{
 		ic := w.Fn("internal/callbacks", "InitCallbacks")
